@@ -48,7 +48,7 @@ def poison (S : Solver Int) : Solver Int :=
                                       work2 := junk S.st.kktsystem.kktsolver.work2 24 }
                        x1 := junk S.st.kktsystem.x1 31, z1 := junk S.st.kktsystem.z1 32,
                        x2 := junk S.st.kktsystem.x2 33, z2 := junk S.st.kktsystem.z2 34,
-                       workx := junk S.st.kktsystem.workx (-35), workz := junk S.st.kktsystem.workz 36 }
+                       workz := junk S.st.kktsystem.workz 36 }
         cones := S.st.cones.map junkLam
         stepLhs := junkStep S.st.stepLhs 50
         stepRhs := junkStep S.st.stepRhs 60
@@ -81,10 +81,10 @@ theorem stale_poison (S : Solver Int) : Stale QW S.st (poison S).st :=
   { data := rfl
     variables := ⟨junk_size _ _, junk_size _ _, junk_size _ _⟩
     residuals := ⟨junk_size _ _, junk_size _ _, junk_size _ _, junk_size _ _,
-      zmulR_of_size Int.mul_zero (junk_size _ _)⟩
+      junk_size _ _⟩
     kktsystem := ⟨QW.set _ (junk_size _ _) (junk_size _ _) (junk_size _ _) (junk_size _ _),
       junk_size _ _, junk_size _ _, junk_size _ _, junk_size _ _,
-      zmulL_of_size Int.zero_mul (junk_size _ _), junk_size _ _, SameFrom.rfl' _ _⟩
+      SameFrom.rfl' _ _, junk_size _ _, SameFrom.rfl' _ _⟩
     cones := junkLam_shapes _
     stepLhs := ⟨junk_size _ _, SameFrom.rfl' _ _, junk_size _ _⟩
     stepRhs := ⟨junk_size _ _, SameFrom.rfl' _ _, junk_size _ _⟩
